@@ -209,7 +209,13 @@ fn main() {
             // crate is stuck on a legal history. Report and leave.
             let stall: u64 = arg(&args, "--stall-s", if cfg!(miri) { 600 } else { 90 });
             let label = format!("prop {} seed {} scen {:?} small {}", p.prop, p.seed, p.scenario, p.small);
-            std::thread::spawn(move || {
+            // (not under Miri: a thread still running at exit is an error there, and would keep
+            // Miri from doing its leak check; Miri jobs have the orchestrator's timeout instead)
+            let spawn_watchdog = !cfg!(miri);
+            if spawn_watchdog {
+                let _ = stall;
+            }
+            let _watchdog = spawn_watchdog.then(|| std::thread::spawn(move || {
                 use std::io::Write;
                 let mut last = u64::MAX;
                 let mut since = std::time::Instant::now();
@@ -228,7 +234,7 @@ fn main() {
                         std::process::exit(3);
                     }
                 }
-            });
+            }));
             let mut hashes: HashSet<u64> = HashSet::new();
             let mut nontriv = 0u64;
             let mut done = 0u64;
